@@ -407,14 +407,27 @@ def run_check(pid, tier, replay=None):
             r = {"err": "Unexpected:" + type(ex).__name__, "msg": str(ex)[:300],
                  "tb": traceback.format_exc()[-1500:]}
         results.append(r)
-        for key, msg in (mod.oracle(c, r) or []):
+        try:
+            ofs = mod.oracle(c, r) or []
+        except Exception as ex:   # the implementation returned something the oracle cannot even read
+            ofs = [("oracle-exception", "oracle raised %s: %s on implementation result %s" % (
+                type(ex).__name__, str(ex)[:200], json.dumps(r, default=str)[:300]))]
+        for key, msg in ofs:
             oracle_fail.append((key, msg, c, r))
-        for tag in getattr(mod, "tags", lambda c, r: [])(c, r):
+        try:
+            tg = getattr(mod, "tags", lambda c, r: [])(c, r)
+        except Exception:
+            tg = ["tags-exception"]
+        for tag in tg:
             hist[tag] = hist.get(tag, 0) + 1
     terms = []
     term_idx = []
     for i, (c, r) in enumerate(zip(cases, results)):
-        t = mod.coq_check(c, r)
+        try:
+            t = mod.coq_check(c, r)
+        except Exception as ex:
+            t = None
+            oracle_fail.append(("coq-term-exception", "building the Coq comparison raised %s: %s" % (type(ex).__name__, str(ex)[:200]), c, r))
         if t is not None:
             terms.append(t)
             term_idx.append(i)
@@ -446,7 +459,11 @@ def run_check(pid, tier, replay=None):
                                "names": "generator coverage for %s" % pid})
     distinct = {}
     for c, r in zip(cases, results):
-        if mod.nontrivial(c, r):
+        try:
+            nt = mod.nontrivial(c, r)
+        except Exception:
+            nt = False
+        if nt:
             distinct[jhash(c)] = 1
     cov["evaluations"] = len(cases)
     cov["traces_validated_against_impl"] = len(terms) - len(mism) if model_ok else 0
